@@ -40,7 +40,7 @@ from .common import cN, cZ, cbool, cbytes, clist, cnat, copt, cstr
 THEOREMS = [
     "cache_refines_map", "lookup_after_history", "get_never_raises", "damaged_entry_removed",
     "expired_entry_removed", "foreign_version_cleared", "cache_ops_never_raise", "put_then_get", "file_names_injective", "version_stamp_is_no_entry", "ids_do_not_alias",
-    "warm_fetches_nothing", "other_policy_no_cache",
+    "warm_fetches_nothing", "second_client_fetches_nothing", "other_policy_no_cache",
     "options_reattached", "options_reattached_partial", "reattach_schema_import_refuted",
     "wrapped_follows_options", "wrapped_follows_options_partial", "wrapped_stale_refuted",
     "toy_format_ok",
@@ -1135,6 +1135,11 @@ def check_sweep(ck):
                     with open(path, "wb") as f:
                         f.write(da)
             shutil.rmtree(loc, ignore_errors=True)
+    if meta:
+        m = meta[len(meta) // 2]
+        ck.sample({"sweep": {"documents": list(m[:3]), "cache": m[3], "policy": m[4], "entry": m[5], "bytes": m[6],
+                             "cut_at": m[7], "zero_filled_tail": m[8]},
+                   "get": m[9], "file_still_there": m[10], "next_get": m[11]})
     res = ck.run_cases("sweep", PRE, "scase", cases, ["c11_sweep_agrees", "c11_sweep_spec_ok"], shard=2500)
     ores = ck.run_cases("overlay", PRE, "sweep_res", ocases, ["c11_overlay_spec_ok"]) if ocases else \
         {"c11_overlay_spec_ok": []}
@@ -1587,21 +1592,26 @@ def _run(ck, version):
 
     ck.rule = ("(a) cache histories over real FileCache/DocumentCache/ObjectCache instances sharing a temp "
                "directory, injected clock: every sequence of length 3 (thorough 4; 5 over a core alphabet) over "
-               "put/torn put/get/purge by two DocumentCache instances (durations 10, never) + clear, clock "
-               "advance to and past the duration, reopen, foreign-version directory; every sequence of length "
-               "2 (thorough 3) over a DocumentCache + an ObjectCache and two ids; random histories up to length "
-               "12 over 3 ids x up to 3 instances x 3 classes with open/read/write faults, crashes at a byte "
-               "offset with/without zero tail, version-file states; every result and the directory listing after "
-               "every operation compared with the model, every result checked against the specification.  "
-               "(b) torn-write sweep: entries written by real clients (DocumentCache documents, ObjectCache "
-               "pickled documents and pickled Definitions) cut at every byte offset (quick: every offset for the "
-               "small member, head/tail/stride/random offsets for the large one) with and without zero tail.  "
-               "(c) client scenarios: generated document graphs (7 import shapes x doc/rpc x 1-3 operations), "
-               "cold/warm x cache class x cachingpolicy {0,1,2} x changed options, entries torn/removed/expired in "
-               "between; fetch log, outcome, directory listing vs the model; behaviour (operations, types, "
-               "factory objects, requests as infosets with URL and SOAPAction, decoded replies) vs an uncached "
-               "client.  distinct = distinct history / (entry, offset, fill) / (documents, scenario); "
-               "non-trivial = some lookup hit / the entry really is cut / some client built without fetching")
+               "{put o0, put o1, torn put, get (one with a read failure), purge} x two DocumentCache instances "
+               "(durations 10 and never) + clear, clock advance to and past the duration, reopen, foreign-version "
+               "directory; every sequence of length 2 (thorough 3) over a DocumentCache + an ObjectCache and two "
+               "ids; 7 version-file states x 3 classes x 3 foreign entry contents; random histories up to length "
+               "12 over 3 ids x up to 3 instances x 3 classes with open/read/write/close faults, crashes at a "
+               "byte offset with/without zero tail, non-document values, negative durations, foreign writers; "
+               "every result and the directory listing after every operation compared with the model, every "
+               "result checked against the specification.  (b) torn-write sweep: entries written by real "
+               "clients (DocumentCache documents, ObjectCache pickled documents and pickled Definitions) cut at "
+               "every byte offset (quick: every offset up to 900 bytes, else head/tail/stride/random offsets) with "
+               "and without zero tail; entries written whole over longer ones.  (c) client scenarios: generated "
+               "document graphs (7 import shapes x doc/rpc x 1-3 operations), cold/warm x cache class x "
+               "cachingpolicy {0,1,2} x changed options (unwrap, prettyxml, xstq, sortNamespaces, location, port, "
+               "retxml, faults, extraArgumentErrors), entries torn/removed/expired in between, the default "
+               "one-day cache; fetch log, outcome, directory listing vs the model; behaviour (operations, types, "
+               "factory objects, requests as infosets with URL and SOAPAction, decoded replies of real "
+               "invocations through a recording transport) vs an uncached client.  (d) thorough: 4/8/16 "
+               "processes x 400 operations on shared ids.  distinct = distinct history / (entry, offset, fill) / "
+               "(documents, scenario); non-trivial = some lookup hit / the entry really is cut / some client "
+               "built without fetching")
     ck.exhaustive = False
     if not proof_ok:
         ck.unproved("proof obligation of C11 no longer checks: " + ck.proof_log[-1500:],
